@@ -16,7 +16,7 @@ from ..core import CaseResult, case_key
 ID = "C07"
 LEVEL = "exploration"
 RULE = (
-    "film {3 boxes, ellipse, circle, tee, notched, resampled 101} x holes {none, circle, two, box, L-shaped (centroid outside the hole)} x terminals {none, two} x max_edge_length x min_points x smoothing x xi; "
+    "film {3 boxes, ellipse, circle, tee, notched, resampled 101} x holes {none, circle, two, box, L-shaped (centroid outside the hole), outlines re-used from terminals / flagged mesh=False} x terminals {none, two} x max_edge_length x min_points x smoothing x xi; "
     "every triangle (orientation, containment), boundary edge (on outline), site (clipped Voronoi area under guards) and edge (clipped Voronoi face under guards) of every mesh. "
     "Non-trivial = mesh has interior sites passing the guards; distinct = case parameters."
 )
@@ -40,7 +40,7 @@ def floors(tier):
 
 
 FILMS = ["box64", "box33", "box81", "ellipse", "circle", "tee", "notched", "resampled"]
-HOLES = ["none", "circle", "two", "box", "ell"]
+HOLES = ["none", "circle", "two", "box", "ell", "reused"]
 
 
 HISTORIES = ("remesh_finer", "remesh_coarser", "translated_inplace", "copy_translated", "translation_context", "terminal_resized", "terminals_replaced", "smoothed_derived", "reloaded", "reloaded_compressed")
@@ -112,6 +112,14 @@ def build_device(case):
         sc = 0.6 if small else 1.0
         holes = [P("h1", points=sc * np.array([(-0.3, -0.6), (0.9, -0.6), (0.9, -0.3), (0.0, -0.3), (0.0, 0.6), (-0.3, 0.6)]) + np.array([0.2, 0.05])).resample(31)]
         holes[0].name = "h1"
+    elif h == "reused":
+        # the hole outlines are polygons that served as terminals of another device before (Device() marks its terminals mesh=False in
+        # place) and one that was created with mesh=False: a hole listed in device.holes is a hole of the domain whatever that flag says
+        t1 = P("t1", points=circle(0.4, points=16, center=(0.0, 0.0)))
+        tdgl.Device("other", layer=tdgl.Layer(coherence_length=1.0, london_lambda=2.0, thickness=0.1), film=P("f", points=box(1.3, 0.9, points=12)), terminals=[t1, P("t2", points=box(0.2, 0.5, center=(0.65, 0.02)))])
+        h1 = t1.translate(dx=-0.8, dy=0.2)
+        h1.name = "h1"
+        holes = [h1, P("h2", points=box(0.6, 0.4, points=10, center=(0.9, -0.15), angle=20), mesh=False)]
     xs = film.points[:, 0]
     terms = []
     if case["terminals"]:
